@@ -49,7 +49,7 @@ def _run(name, prop, jobs, bounds, expected=(), extra_assume=()):
 
 
 def _job(h, label, budget, **params):
-    return {"harness": K + h, "label": label, "params": params, "limits": {"budget_s": budget}}
+    return {"harness": K + h, "label": label, "params": params, "limits": {"budget_s": budget, "max_paths": 4000 if budget <= 60 else 40000}}
 
 
 PRIMS = ["uvarint", "svarint", "byte", "bool", "int8", "uint8", "fixed_int32", "f32", "f64", "c32", "c64"]
